@@ -61,21 +61,22 @@ def underscoreOK (s : Bytes) : Bool :=
     else usLoop false s 0
   | _ => usLoop false s 0
 
+/-- base 0: the base implied by the prefix (`0b`, `0o`, `0x`, a leading `0`), and the digits -/
+def basePrefix (s : Bytes) : Nat × Bytes :=
+  match s with
+  | 48 :: c :: r =>
+    if s.length ≥ 3 && lowerB c == 98 then (2, r)
+    else if s.length ≥ 3 && lowerB c == 111 then (8, r)
+    else if s.length ≥ 3 && lowerB c == 120 then (16, r)
+    else (8, c :: r)
+  | 48 :: r => (8, r)
+  | _ => (10, s)
+
 /-- strconv.ParseUint(s, base, bitSize) for base ∈ {0, 10}, bitSize ∈ {0, 8, 16, 32, 64} -/
 def parseUint (s : Bytes) (base bitSize : Nat) : PU :=
   if s.isEmpty then ⟨0, some .syntax⟩ else
   let base0 := base == 0
-  let (b, s') : Nat × Bytes :=
-    if base0 then
-      match s with
-      | 48 :: c :: r =>
-        if s.length ≥ 3 && lowerB c == 98 then (2, r)
-        else if s.length ≥ 3 && lowerB c == 111 then (8, r)
-        else if s.length ≥ 3 && lowerB c == 120 then (16, r)
-        else (8, c :: r)
-      | 48 :: r => (8, r)
-      | _ => (10, s)
-    else (base, s)
+  let (b, s') : Nat × Bytes := if base0 then basePrefix s else (base, s)
   let bits := if bitSize == 0 then 64 else bitSize
   let maxVal := 2 ^ bits - 1
   let (n, err, us) := puLoop b maxVal base0 s' 0 false
